@@ -7,6 +7,7 @@ VFAIL(tag, x)   raises on configured call numbers, else returns x
 CALLS = []            # [(tag, value)]
 FAIL_ON = {}          # tag -> set of call numbers (1-based) or 'all'
 FAIL_CALLS = {}       # tag -> number of calls so far
+RAISED = [0]          # number of injected faults raised so far
 
 
 class InjectedFault(Exception):
@@ -17,6 +18,7 @@ def reset():
     del CALLS[:]
     FAIL_ON.clear()
     FAIL_CALLS.clear()
+    RAISED[0] = 0
 
 
 def vcount(tag, x):
@@ -28,5 +30,6 @@ def vfail(tag, x):
     n = FAIL_CALLS[tag] = FAIL_CALLS.get(tag, 0) + 1
     rule = FAIL_ON.get(tag)
     if rule == 'all' or (rule and n in rule):
+        RAISED[0] += 1
         raise InjectedFault(f'injected fault {tag} call {n}')
     return x
